@@ -57,8 +57,26 @@ Definition frame (k k' : nat) (sl0 sl1 : list val) : Prop :=
   length sl1 = length sl0 /\
   forall j, NC <= j -> j < k \/ k' <= j -> nth_error sl1 j = nth_error sl0 j.
 Definition sof (v : vst) : sst := (v_ix v, caps (v_sl v)).
+
+(* the auxiliary stack after a block: exactly as before, or — where conditionals may have taken
+   their false path (known finding F-condleak) — as before plus leaked entries on top *)
+Definition auxrel (lk : bool) (a0 a : list val) : Prop := if lk then exists L, a = a0 ++ L else a = a0.
+Lemma auxrel_refl lk a : auxrel lk a a.
+Proof. destruct lk; cbn; auto. exists []. now rewrite app_nil_r. Qed.
+Lemma auxrel_trans lk a b c : auxrel lk a b -> auxrel lk b c -> auxrel lk a c.
+Proof. destruct lk; cbn; [|congruence]. intros [L1 ->] [L2 ->]. exists (L1 ++ L2). now rewrite app_assoc. Qed.
+Lemma auxrel_eq lk a b : b = a -> auxrel lk a b.
+Proof. intros ->. apply auxrel_refl. Qed.
+Lemma auxrel_false a b : auxrel false a b -> b = a. Proof. auto. Qed.
+Lemma auxrel_weaken lk a b : auxrel false a b -> auxrel lk a b.
+Proof. intros H. apply auxrel_eq. exact H. Qed.
+Local Hint Resolve auxrel_refl : core.
+
+Section LK.
+Variable lk : bool.
+
 Definition R (v0 : vst) (k k' : nat) (x : sst) : vst -> Prop := fun v =>
-  v_ix v = fst x /\ caps (v_sl v) = snd x /\ v_aux v = v_aux v0 /\ frame k k' (v_sl v0) (v_sl v).
+  v_ix v = fst x /\ caps (v_sl v) = snd x /\ auxrel lk (v_aux v0) (v_aux v) /\ frame k k' (v_sl v0) (v_sl v).
 
 Lemma frame_refl k k' sl : frame k k' sl sl. Proof. split; auto. Qed.
 Lemma frame_trans k k1 k' a b c : k <= k1 <= k' -> frame k k1 a b -> frame k1 k' b c -> frame k k' a c.
@@ -166,21 +184,24 @@ Definition lb_alt_const (c : expr) (la : lookkind) : Prop :=
   | _, _ => True
   end.
 
-(* a counted repeat has lo <= hi (the parser rejects {3,2}); stage 1 leaves out look-behinds whose
-   body is an alternation of different lengths (compiled as an alternation of look-behinds) *)
-Fixpoint rok (e : expr) : Prop :=
+(* a counted repeat has lo <= hi (the parser rejects {3,2}).  [lk = false]: no conditional at all;
+   [lk = true]: conditionals may occur, except inside the body of an atomic group, of a look-around
+   or in the condition position of a conditional (where a leaked auxiliary-stack entry would be
+   popped by the enclosing EndAtomic: F-condleak) *)
+Fixpoint rok (b : bool) (e : expr) : Prop :=
   match e with
-  | Repeat c lo hi _ => (lo <= hi)%N /\ rok c
-  | Concat es | Alt es => (fix go (l : list expr) : Prop := match l with [] => True | x :: r => rok x /\ go r end) es
-  | Group c | LookAround c _ | AtomicGroup c => rok c
-  | Conditional _ _ _ => False        (* stage 1: see DESIGN.md, finding F-condleak *)
+  | Repeat c lo hi _ => (lo <= hi)%N /\ rok b c
+  | Concat es | Alt es => (fix go (l : list expr) : Prop := match l with [] => True | x :: r => rok b x /\ go r end) es
+  | Group c => rok b c
+  | LookAround c _ | AtomicGroup c => rok false c
+  | Conditional c y n => if b then rok false c /\ rok b y /\ rok b n else False
   | _ => True
   end.
-Fixpoint rok_list (l : list expr) : Prop := match l with [] => True | x :: r => rok x /\ rok_list r end.
-Lemma rok_concat es : rok (Concat es) = rok_list es. Proof. induction es; simpl in *; congruence. Qed.
-Lemma rok_alt es : rok (Alt es) = rok_list es. Proof. induction es; simpl in *; congruence. Qed.
+Fixpoint rok_list (b : bool) (l : list expr) : Prop := match l with [] => True | x :: r => rok b x /\ rok_list b r end.
+Lemma rok_concat b es : rok b (Concat es) = rok_list b es. Proof. induction es; simpl in *; congruence. Qed.
+Lemma rok_alt b es : rok b (Alt es) = rok_list b es. Proof. induction es; simpl in *; congruence. Qed.
 
-Definition oke (g : nat) (e : expr) : Prop := wfe e /\ zok e /\ acheck g e = None /\ rok e.
+Definition oke (g : nat) (e : expr) : Prop := wfe e /\ zok e /\ acheck g e = None /\ rok lk e.
 
 Definition seg_stmt (e : expr) : Prop := forall g hc pc ns code ns',
   visit bs e g hc pc ns = inr (code, ns') -> nodeleg code -> At pc code ->
@@ -418,36 +439,6 @@ Proof.
   rewrite skipn_app, skipn_all, Nat.sub_diag. reflexivity.
 Qed.
 
-Lemma seg_atomic c : seg_stmt c -> seg_stmt (AtomicGroup c).
-Proof.
-  intros IH. start (AtomicGroup c).
-  apply bindc_inr in Hv as ([cc ns1] & Hc & Hr). inversion Hr; subst code ns'. clear Hr.
-  apply At_cons in HAt as [Ha1 HAt]. apply At_app in HAt as [HAc HA2]. apply At_cons in HA2 as [Ha2 _].
-  apply nodeleg_cons in Hnd as [_ Hnd]. apply nodeleg_app in Hnd as [Hndc _].
-  cbn [ngroups] in Hng. cbn [wfe] in Hw. cbn [zok] in Hz. cbn [acheck] in Hac. cbn [rok] in Hrk.
-  replace (pc + 1) with (S pc) in Hc by lia.
-  destruct (IH g false (S pc) ns cc ns1 Hc Hndc HAc (conj Hw (conj Hz (conj Hac Hrk))) Hns ltac:(lia)) as [Hmono IHc].
-  split; [exact Hmono|]. intros v K Hsl Hok.
-  destruct v as [ix sl aux]. cbn [sem]. 
-  set (v1 := {| v_ix := ix; v_sl := sl; v_aux := aux ++ [V (length K)] |}).
-  apply Gen_step. unfold RunV at 1; cbn [v_ix v_sl v_aux]. rewrite (step_begin cx P MS pc ix sl aux K Ha1).
-  change (Run (S pc) ix sl (aux ++ [V (length K)]) K) with (RunV (S pc) v1 K).
-  specialize (IHc v1 K Hsl Hok). change (sof v1) with (sof {| v_ix := ix; v_sl := sl; v_aux := aux |}) in IHc.
-  change (let '(ix0, caps0) := sof {| v_ix := ix; v_sl := sl; v_aux := aux |} in
-          firstn 1 (sem cx c fuel g (sof {| v_ix := ix; v_sl := sl; v_aux := aux |})))
-    with (firstn 1 (sem cx c fuel g (sof {| v_ix := ix; v_sl := sl; v_aux := aux |}))).
-  destruct (sem cx c fuel g (sof {| v_ix := ix; v_sl := sl; v_aux := aux |})) as [|x rest]; cbn [firstn map] in *.
-  - inversion IHc; subst. apply Gen_nil. auto.
-  - inversion IHc as [|c0 v' F Q Ps Hs HF HQ Hrest]; subst.
-    destruct HQ as (Hi & Hcp & Hax & Hfr). destruct v' as [ix' sl' aux']. cbn [v_ix v_sl v_aux] in *. subst aux'.
-    eapply Gen_cons with (F := []) (v := {| v_ix := ix'; v_sl := sl'; v_aux := aux |}).
-    + eapply steps_trans; [exact Hs|]. apply steps_step. unfold RunV, v1; cbn [v_ix v_sl v_aux app].
-      rewrite (step_end cx P MS _ ix' sl' aux (F ++ K) (length K) Ha2) by (rewrite app_length; lia).
-      rewrite skipn_app_len. f_equal. cbn [length]. rewrite app_length. cbn [length]. lia.
-    + constructor.
-    + unfold R; cbn [v_ix v_sl v_aux]. auto.
-    + apply Gen_nil. apply steps_refl.
-Qed.
 
 (* ---------- sequencing ---------- *)
 
@@ -465,7 +456,7 @@ Proof.
     eapply Gen_weaken with (p := pc + length c1); [lia|].
     eapply Gen_impl; [|apply G2].
     + rewrite Es. apply Forall2_same_map. intros b Hb v2 (Hi2 & Hcp2 & Hax2 & Hfr2).
-      unfold R. repeat split; try tauto; try congruence.
+      unfold R. split; [auto|]. split; [auto|]. split; [eapply auxrel_trans; eauto|]. split.
       * destruct Hfr as [L1 _], Hfr2 as [L2 _]. congruence.
       * intros j Hj Ho. destruct Hfr as [_ F1], Hfr2 as [_ F2]. rewrite F2, F1; auto; lia.
     + destruct Hfr as [L1 _]. lia.
@@ -858,13 +849,14 @@ Hypothesis Hbody : forall v K, ns1 <= length (v_sl v) -> st_ok cs (sof v) ->
    Gen p bend K (RunV bst v K) (map (R v nsb ns1) (body (sof v))).
 Hypothesis Hpres : forall st st', st_ok cs st -> In st' (body st) -> st_ok cs st' /\ fst st <= fst st'.
 
-Definition ext (v0 v : vst) : Prop := v_aux v = v_aux v0 /\ frame k0 ns1 (v_sl v0) (v_sl v).
+Definition ext (v0 v : vst) : Prop := auxrel lk (v_aux v0) (v_aux v) /\ frame k0 ns1 (v_sl v0) (v_sl v).
 
 Lemma ext_refl v : ext v v. Proof. split; auto. apply frame_refl. Qed.
 
 Lemma R_ext v0 v x v' : ext v0 v -> R v nsb ns1 x v' -> R v0 k0 ns1 x v'.
 Proof.
-  intros [Ha [L1 F1]] (Hi & Hc & Hax & [L2 F2]). unfold R. repeat split; auto; try congruence.
+  intros [Ha [L1 F1]] (Hi & Hc & Hax & [L2 F2]). unfold R. split; [auto|]. split; [auto|].
+  split; [eapply auxrel_trans; eauto|]. split; [congruence|].
   intros j Hj Ho. rewrite F2, F1; auto; lia.
 Qed.
 
@@ -1487,6 +1479,8 @@ Proof.
     destruct (sem cx c fuel g (ix0, caps0)); reflexivity.
 Qed.
 
+End LK.
+
 (* ---------- look-around: machine side ---------- *)
 
 Definition la_inner (la : lookkind) (x : expr) (gx pc ns : nat) : cerr + cres :=
@@ -1522,24 +1516,24 @@ Definition is_behind (la : lookkind) : bool := match la with LookBehind | LookBe
 Definition setix (v : vst) (j : nat) : vst := {| v_ix := j; v_sl := v_sl v; v_aux := v_aux v |}.
 
 (* the body of a look-around, after the GoBack of a look-behind *)
-Lemma seg_la_inner la x gx pc ns code ns1 : seg_stmt x ->
+Lemma seg_la_inner la x gx pc ns code ns1 : seg_stmt false x ->
   la_inner la x gx pc ns = inr (code, ns1) -> nodeleg code -> At pc code ->
-  oke gx x -> NC <= ns -> 2 * (gx + ngroups x) <= NC ->
+  oke false gx x -> NC <= ns -> 2 * (gx + ngroups x) <= NC ->
   ns <= ns1 /\
   forall v K, ns1 <= length (v_sl v) -> st_ok cs (sof v) ->
-  Gen pc (pc + length code) K (RunV pc v K) (map (R v ns ns1) (la_f la x gx (sof v))).
+  Gen pc (pc + length code) K (RunV pc v K) (map (R false v ns ns1) (la_f la x gx (sof v))).
 Proof.
   intros IH Hi Hnd HAt Hok Hns Hng.
   assert (Hahead : visit bs x gx false pc ns = inr (code, ns1) -> ns <= ns1 /\
             forall v K, ns1 <= length (v_sl v) -> st_ok cs (sof v) ->
-            Gen pc (pc + length code) K (RunV pc v K) (map (R v ns ns1) (sem cx x fuel gx (sof v)))).
+            Gen pc (pc + length code) K (RunV pc v K) (map (R false v ns ns1) (sem cx x fuel gx (sof v)))).
   { intros Hv. exact (IH gx false pc ns code ns1 Hv Hnd HAt Hok Hns Hng). }
   assert (Hbehind : (if const_size x then
              bindc (visit bs x gx false (pc + 1) ns) (fun '(code, ns1) => inr (IGoBack (min_size x) :: code, ns1))
            else inl CLookBehindNotConst) = inr (code, ns1) -> ns <= ns1 /\
             forall v K, ns1 <= length (v_sl v) -> st_ok cs (sof v) ->
             Gen pc (pc + length code) K (RunV pc v K)
-              (map (R v ns ns1) (match goback cx (fst (sof v)) (min_size x) (fst (sof v)) with
+              (map (R false v ns ns1) (match goback cx (fst (sof v)) (min_size x) (fst (sof v)) with
                                  | GBOk j => sem cx x fuel gx (j, snd (sof v)) | _ => [] end))).
   { destruct (const_size x); [|discriminate]. intros Hv.
     apply bindc_inr in Hv as ([cc n1] & Hc & Hr). inversion Hr; subst code ns1. clear Hr.
@@ -1585,14 +1579,14 @@ Proof.
     destruct (goback cx (fst st) (min_size x) (fst st)) as [j| |]; cbn [length]; try lia; apply Hs; auto.
 Qed.
 
-Lemma pos_wrap pc ns ns1 (h : bool) codeI (f : sst -> list sst) :
+Lemma pos_wrap lk pc ns ns1 (h : bool) codeI (f : sst -> list sst) :
   At pc (ISave ns :: (if h then [IBeginAtomic] else []) ++ codeI ++ (if h then [IEndAtomic] else []) ++ [IRestore ns]) ->
   NC <= ns -> ns + 1 <= ns1 ->
   (forall v K, ns1 <= length (v_sl v) -> st_ok cs (sof v) ->
      Gen (pc + 1 + (if h then 1 else 0)) (pc + 1 + (if h then 1 else 0) + length codeI) K
-         (RunV (pc + 1 + (if h then 1 else 0)) v K) (map (R v (ns + 1) ns1) (f (sof v)))) ->
+         (RunV (pc + 1 + (if h then 1 else 0)) v K) (map (R false v (ns + 1) ns1) (f (sof v)))) ->
   (h = false -> forall st, st_ok cs st -> length (f st) <= 1) ->
-  segP pc (ISave ns :: (if h then [IBeginAtomic] else []) ++ codeI ++ (if h then [IEndAtomic] else []) ++ [IRestore ns])
+  segP lk pc (ISave ns :: (if h then [IBeginAtomic] else []) ++ codeI ++ (if h then [IEndAtomic] else []) ++ [IRestore ns])
        ns ns1 (fun st => map (fun s' => (fst st, snd s')) (firstn 1 (f st))).
 Proof.
   intros HAt Hns Hn1 Hin Hshort. split; [lia|]. intros v K Hsl Hok.
@@ -1603,7 +1597,7 @@ Proof.
   assert (Hslot : nth_error (v_sl v1) ns = Some (V (v_ix v))) by (unfold v1; cbn [setsl v_sl]; apply nth_upd_same; lia).
   assert (HR : forall (x : sst) v', caps (v_sl v') = snd x -> frame (ns + 1) ns1 (v_sl v1) (v_sl v') ->
             nth_error (v_sl v') ns = Some (V (v_ix v)) /\
-            R v ns ns1 (fst (sof v), snd x) {| v_ix := v_ix v; v_sl := v_sl v'; v_aux := v_aux v |}).
+            R lk v ns ns1 (fst (sof v), snd x) {| v_ix := v_ix v; v_sl := v_sl v'; v_aux := v_aux v |}).
   { intros x v' Hc [L F]. split; [rewrite F by lia; exact Hslot|].
     unfold R; cbn [v_ix v_sl v_aux fst snd sof].
     split; [auto|]. split; [auto|]. split; [auto|]. split; [congruence|].
@@ -1622,7 +1616,7 @@ Proof.
     destruct (f (sof v)) as [|x rest]; cbn [firstn map] in *.
     + inversion Hin; subst. apply Gen_nil. auto.
     + inversion Hin as [|c0 v' F Q Ps Hs HF HQ Hrest]; subst.
-      destruct HQ as (Hi & Hcp & Hax & Hfr). destruct (HR x v' Hcp Hfr) as [Hsl' HRx].
+      destruct HQ as (Hi & Hcp & Hax & Hfr). apply auxrel_false in Hax. destruct (HR x v' Hcp Hfr) as [Hsl' HRx].
       destruct v' as [ix' sl' aux']. cbn [v_ix v_sl v_aux] in *. subst aux'.
       eapply Gen_one' with (v' := {| v_ix := v_ix v; v_sl := sl'; v_aux := v_aux v |}).
       * eapply steps_trans; [exact Hs|]. unfold RunV; cbn [v_ix v_sl v_aux v2 v1 setsl].
@@ -1638,7 +1632,7 @@ Proof.
     destruct (f (sof v)) as [|x [|y rest]]; cbn [firstn map length] in *; [| |lia].
     + inversion Hin; subst. apply Gen_nil. auto.
     + inversion Hin as [|c0 v' F Q Ps Hs HF HQ Hrest]; subst. inversion Hrest as [c1 Hst|]; subst.
-      destruct HQ as (Hi & Hcp & Hax & Hfr). destruct (HR x v' Hcp Hfr) as [Hsl' HRx].
+      destruct HQ as (Hi & Hcp & Hax & Hfr). apply auxrel_false in Hax. destruct (HR x v' Hcp Hfr) as [Hsl' HRx].
       change (v_aux v1) with (v_aux v) in Hax.
       eapply Gen_cons with (F := F) (v := {| v_ix := v_ix v; v_sl := v_sl v'; v_aux := v_aux v |}).
       * eapply steps_trans; [exact Hs|]. apply steps_step. unfold RunV; cbn [v_ix v_sl v_aux].
@@ -1649,12 +1643,12 @@ Proof.
       * apply Gen_nil. exact Hst.
 Qed.
 
-Lemma neg_wrap pc ns ns1 codeI (f : sst -> list sst) :
+Lemma neg_wrap lk pc ns ns1 codeI (f : sst -> list sst) :
   At pc (ISplit (pc + 1) (pc + 1 + length codeI + 1) :: codeI ++ [IFailNegativeLookAround]) ->
   ns <= ns1 ->
   (forall v K, ns1 <= length (v_sl v) -> st_ok cs (sof v) ->
-     Gen (pc + 1) (pc + 1 + length codeI) K (RunV (pc + 1) v K) (map (R v ns ns1) (f (sof v)))) ->
-  segP pc (ISplit (pc + 1) (pc + 1 + length codeI + 1) :: codeI ++ [IFailNegativeLookAround])
+     Gen (pc + 1) (pc + 1 + length codeI) K (RunV (pc + 1) v K) (map (R false v ns ns1) (f (sof v)))) ->
+  segP lk pc (ISplit (pc + 1) (pc + 1 + length codeI + 1) :: codeI ++ [IFailNegativeLookAround])
        ns ns1 (fun st => match f st with [] => [st] | _ => [] end).
 Proof.
   intros HAt Hn Hin. split; auto. intros v K Hsl Hok.
@@ -1676,10 +1670,10 @@ Proof.
     + cbn [alt_of a_pc]. lia.
 Qed.
 
-Lemma seg_la_pos la c g pc ns code ns' : seg_stmt c ->
+Lemma seg_la_pos lk la c g pc ns code ns' : seg_stmt false c ->
   la_pos la c g pc ns = inr (code, ns') -> nodeleg code -> At pc code ->
-  oke g c -> NC <= ns -> 2 * (g + ngroups c) <= NC ->
-  segP pc code ns ns' (fun st => map (fun s' => (fst st, snd s')) (firstn 1 (la_f la c g st))).
+  oke false g c -> NC <= ns -> 2 * (g + ngroups c) <= NC ->
+  segP lk pc code ns ns' (fun st => map (fun s' => (fst st, snd s')) (firstn 1 (la_f la c g st))).
 Proof.
   intros IH Hv Hnd HAt Hok Hns Hng. unfold la_pos in Hv. cbv zeta in Hv.
   apply bindc_inr in Hv as ([cc n1] & Hi & Hr). inversion Hr; subst code ns'. clear Hr.
@@ -1695,10 +1689,10 @@ Proof.
   apply pos_wrap; auto; try lia. intros Hh st Hst. eapply la_f_short; eauto.
 Qed.
 
-Lemma seg_la_neg la c g pc ns code ns' : seg_stmt c ->
+Lemma seg_la_neg lk la c g pc ns code ns' : seg_stmt false c ->
   la_neg la c g pc ns = inr (code, ns') -> nodeleg code -> At pc code ->
-  oke g c -> NC <= ns -> 2 * (g + ngroups c) <= NC ->
-  segP pc code ns ns' (fun st => match la_f la c g st with [] => [st] | _ => [] end).
+  oke false g c -> NC <= ns -> 2 * (g + ngroups c) <= NC ->
+  segP lk pc code ns ns' (fun st => match la_f la c g st with [] => [st] | _ => [] end).
 Proof.
   intros IH Hv Hnd HAt Hok Hns Hng. unfold la_neg in Hv.
   apply bindc_inr in Hv as ([cc n1] & Hi & Hr). inversion Hr; subst code ns'. clear Hr.
@@ -1711,12 +1705,13 @@ Qed.
 
 (* ---------- alternation / sequence layouts over any per-child compiler (look-behind split) ---------- *)
 Section GenLayout.
+Variables lk0 lk : bool.                 (* children are required to be [oke lk0], results relate by [R lk] *)
 Variable cf : expr -> nat -> nat -> nat -> cerr + cres.     (* child, first group, pc, next slot *)
 Variable sf : expr -> nat -> sst -> list sst.
 
 Definition cf_ok (x : expr) : Prop := forall g pc ns code ns',
-  cf x g pc ns = inr (code, ns') -> nodeleg code -> At pc code -> oke g x -> NC <= ns ->
-  2 * (g + ngroups x) <= NC -> segP pc code ns ns' (sf x g).
+  cf x g pc ns = inr (code, ns') -> nodeleg code -> At pc code -> oke lk0 g x -> NC <= ns ->
+  2 * (g + ngroups x) <= NC -> segP lk pc code ns ns' (sf x g).
 
 Fixpoint galt_codes (g pc ns : nat) (l : list expr) : cerr + (list (list insn) * nat) :=
   match l with
@@ -1753,10 +1748,10 @@ Qed.
 Lemma gseg_alts : forall r x, Forall cf_ok (x :: r) -> forall g pc ns cds ns',
   galt_codes g pc ns (x :: r) = inr (cds, ns') ->
   nodeleg (alt_layout pc (pc + alt_size cds) cds) -> At pc (alt_layout pc (pc + alt_size cds) cds) ->
-  okl g (x :: r) -> NC <= ns -> 2 * (g + ngroups_list (x :: r)) <= NC ->
+  okl lk0 g (x :: r) -> NC <= ns -> 2 * (g + ngroups_list (x :: r)) <= NC ->
   ns <= ns' /\
   forall v K, ns' <= length (v_sl v) -> st_ok cs (sof v) ->
-  Gen pc (pc + alt_size cds) K (RunV pc v K) (map (R v ns ns') (gsem_alts g (x :: r) (sof v))).
+  Gen pc (pc + alt_size cds) K (RunV pc v K) (map (R lk v ns ns') (gsem_alts g (x :: r) (sof v))).
 Proof.
   induction r as [|y r IH]; intros x HF g pc ns cds ns' Hc Hnd HAt Hok Hns Hng.
   - cbn [galt_codes] in Hc. destruct (cf x g pc ns) as [er|[c ns1]] eqn:Hx; [discriminate|].
@@ -1787,13 +1782,13 @@ Proof.
     apply Gen_app with (F := [alt_of (pc + 1 + length c + 1) v]).
     + constructor; [|constructor]. cbn [alt_of a_pc]. lia.
     + apply Gen_weaken with (p := pc + 1); [lia|].
-      eapply Gen_map with (q := pc + 1 + length c); [lia| |apply (Gen_R_widen _ _ _ _ v ns ns1 ns ns2); [lia|lia|apply G1; auto; lia]].
+      eapply Gen_map with (q := pc + 1 + length c); [lia| |apply (Gen_R_widen lk _ _ _ _ v ns ns1 ns ns2); [lia|lia|apply G1; auto; lia]].
       apply Forall2_same_map. intros a _ v' K1 HR. exists v'. split; auto.
       apply steps_step. unfold RunV. apply step_jmp. exact Ha2.
     + apply Gen_step. cbn [app Machine.mstep alt_of a_pc a_ix a_slots a_aux].
       change (Run (pc + 1 + length c + 1) (v_ix v) (v_sl v) (v_aux v) K) with (RunV (pc + 1 + length c + 1) v K).
       apply Gen_weaken with (p := pc + 1 + length c + 1); [lia|]. rewrite Eend.
-      apply (Gen_R_widen _ _ _ _ v ns1 ns2 ns ns2); [lia|lia|]. apply G2; auto.
+      apply (Gen_R_widen lk _ _ _ _ v ns1 ns2 ns ns2); [lia|lia|]. apply G2; auto.
 Qed.
 
 Fixpoint gseq_codes (g pc ns : nat) (l : list expr) : cerr + cres :=
@@ -1807,12 +1802,12 @@ Fixpoint gseq_codes (g pc ns : nat) (l : list expr) : cerr + cres :=
 Fixpoint gsem_seq (g : nat) (l : list expr) (st : sst) : list sst :=
   match l with [] => [st] | x :: r => flat_map (gsem_seq (g + ngroups x) r) (sf x g st) end.
 
-Hypothesis sf_ok : forall x g st st', oke g x -> st_ok cs st -> In st' (sf x g st) -> st_ok cs st'.
+Hypothesis sf_ok : forall x g st st', oke lk0 g x -> st_ok cs st -> In st' (sf x g st) -> st_ok cs st'.
 
 Lemma gseg_seq : forall B, Forall cf_ok B -> forall g pc ns code ns',
   gseq_codes g pc ns B = inr (code, ns') -> nodeleg code -> At pc code ->
-  okl g B -> NC <= ns -> 2 * (g + ngroups_list B) <= NC ->
-  segP pc code ns ns' (gsem_seq g B).
+  okl lk0 g B -> NC <= ns -> 2 * (g + ngroups_list B) <= NC ->
+  segP lk pc code ns ns' (gsem_seq g B).
 Proof.
   induction 1 as [|x r Hx Hr IH]; intros g pc ns code ns' Hv Hnd HAt Hokl Hns Hng; cbn [gseq_codes] in Hv.
   - inversion Hv; subst. apply segP_nil.
@@ -1928,8 +1923,8 @@ Proof.
     destruct (const_size x); auto; discriminate.
 Qed.
 
-Lemma la_pos_ok la x : (la = LookAhead \/ la = LookBehind) -> seg_stmt x ->
-  cf_ok (la_pos la) (fun x g => sem cx (LookAround x la) fuel g) x.
+Lemma la_pos_ok lk la x : (la = LookAhead \/ la = LookBehind) -> seg_stmt false x ->
+  cf_ok false lk (la_pos la) (fun x g => sem cx (LookAround x la) fuel g) x.
 Proof.
   intros Hla IH g pc ns code ns' Hv Hnd HAt Hok Hns Hng.
   eapply segP_ext; [|eapply seg_la_pos; eauto]. intros st Hst. cbv beta.
@@ -1937,8 +1932,8 @@ Proof.
   - destruct Hla as [->| ->]; reflexivity.
   - destruct Hla as [->| ->]; auto. eapply (la_const LookBehind); eauto.
 Qed.
-Lemma la_neg_ok la x : (la = LookAheadNeg \/ la = LookBehindNeg) -> seg_stmt x ->
-  cf_ok (la_neg la) (fun x g => sem cx (LookAround x la) fuel g) x.
+Lemma la_neg_ok lk la x : (la = LookAheadNeg \/ la = LookBehindNeg) -> seg_stmt false x ->
+  cf_ok false lk (la_neg la) (fun x g => sem cx (LookAround x la) fuel g) x.
 Proof.
   intros Hla IH g pc ns code ns' Hv Hnd HAt Hok Hns Hng.
   eapply segP_ext; [|eapply seg_la_neg; eauto]. intros st Hst. cbv beta.
@@ -1961,14 +1956,14 @@ Proof.
     destruct Ha as [Ha|Ha]; [subst a; eapply (la_const LookBehind); eauto|eapply IH; eauto].
 Qed.
 
-Lemma okl_of_alt g x r : oke g (Alt (x :: r)) -> okl g (x :: r).
+Lemma okl_of_alt lk g x r : oke lk g (Alt (x :: r)) -> okl lk g (x :: r).
 Proof.
   intros (Hw & Hz & Hac & Hr). rewrite acheck_alt in Hac. rewrite wfe_alt in Hw. rewrite zok_alt in Hz. rewrite rok_alt in Hr.
   unfold okl, oke. rewrite wfe_concat, zok_concat, acheck_concat, rok_concat. auto.
 Qed.
 
-Lemma seg_lookaround c la : seg_stmt c -> (forall es, c = Alt es -> Forall seg_stmt es) ->
-  seg_stmt (LookAround c la).
+Lemma seg_lookaround lk c la : seg_stmt false c -> (forall es, c = Alt es -> Forall (seg_stmt false) es) ->
+  seg_stmt lk (LookAround c la).
 Proof.
   intros IH IHalts g hc pc ns code ns' Hv Hnd HAt (Hw & Hz & Hac & Hrk) Hns Hng.
   cbn [wfe] in Hw. cbn [acheck] in Hac. cbn [rok] in Hrk. cbn [ngroups] in Hng.
@@ -1978,28 +1973,28 @@ Proof.
     assert (Hcs : const_size (Alt es) = false) by (destruct la; try discriminate; now apply negb_true_iff in Esplit).
     specialize (IHalts es eq_refl).
     assert (Hzc : zok (Alt es)) by exact Hz.
-    assert (Hoc : oke g (Alt es)) by (repeat split; auto).
+    assert (Hoc : oke false g (Alt es)) by (repeat split; auto).
     destruct es as [|x r]; [destruct Hoc as (_ & _ & Ha & _); discriminate|].
-    pose proof (okl_of_alt g x r Hoc) as Hokl. rewrite ngroups_alt in Hng.
+    pose proof (okl_of_alt false g x r Hoc) as Hokl. rewrite ngroups_alt in Hng.
     rewrite wfe_alt in Hw. rewrite zok_alt in Hzc.
     destruct la; try discriminate.
     - (* LookBehind: an alternation of look-behinds *)
       rewrite (visit_lb_split (x :: r) g hc pc ns Hcs) in Hv.
       destruct (galt_codes (la_pos LookBehind) g pc ns (x :: r)) as [er|[cds ns1]] eqn:Hc; [discriminate|].
       inversion Hv; subst code ns'. clear Hv.
-      assert (Hcf : Forall (cf_ok (la_pos LookBehind) (fun x g => sem cx (LookAround x LookBehind) fuel g)) (x :: r)).
+      assert (Hcf : Forall (cf_ok false lk (la_pos LookBehind) (fun x g => sem cx (LookAround x LookBehind) fuel g)) (x :: r)).
       { eapply Forall_impl; [|exact IHalts]. intros a Ha. apply la_pos_ok; auto. }
-      destruct (gseg_alts _ _ r x Hcf g pc ns cds ns1 Hc Hnd HAt Hokl Hns Hng) as [M G]. split; auto.
+      destruct (gseg_alts false lk _ _ r x Hcf g pc ns cds ns1 Hc Hnd HAt Hokl Hns Hng) as [M G]. split; auto.
       intros v K Hsl Hokv. rewrite alt_layout_length. rewrite sem_lb_split; auto.
       eapply galt_const; eauto.
     - (* LookBehindNeg: a sequence of negative look-behinds *)
       rewrite (visit_lbn_split (x :: r) g hc pc ns Hcs) in Hv.
-      assert (Hcf : Forall (cf_ok (la_neg LookBehindNeg) (fun x g => sem cx (LookAround x LookBehindNeg) fuel g)) (x :: r)).
+      assert (Hcf : Forall (cf_ok false lk (la_neg LookBehindNeg) (fun x g => sem cx (LookAround x LookBehindNeg) fuel g)) (x :: r)).
       { eapply Forall_impl; [|exact IHalts]. intros a Ha. apply la_neg_ok; auto. }
-      assert (Hsf : forall x g st st', oke g x -> st_ok cs st ->
+      assert (Hsf : forall x g st st', oke false g x -> st_ok cs st ->
                 In st' (sem cx (LookAround x LookBehindNeg) fuel g st) -> st_ok cs st').
       { intros a ga st st' (Hwa & _) Hs Hin. eapply (sem_ok (LookAround a LookBehindNeg)); eauto. }
-      eapply segP_ext; [|eapply (gseg_seq _ _ Hsf (x :: r) Hcf); eauto].
+      eapply segP_ext; [|eapply (gseg_seq false lk _ _ Hsf (x :: r) Hcf); eauto].
       intros st Hst. symmetry. apply sem_lbn_split; auto.
       clear - Hv. revert g pc ns code ns' Hv. generalize (x :: r) as l.
       induction l as [|y l IHl]; intros g pc ns code ns' Hv a Ha; [destruct Ha|].
@@ -2014,7 +2009,7 @@ Proof.
     destruct la; unfold la_pos, la_neg, la_inner in Hv; cbn in Hv;
       repeat match type of Hv with context [if ?b then _ else _] => destruct b end;
       cbn in Hv; try discriminate; inversion Hv; subst code; cbn in Hnd; discriminate. }
-  assert (Hoc : oke g c) by (repeat split; auto).
+  assert (Hoc : oke false g c) by (repeat split; auto).
   assert (Hcs : match la with LookBehind | LookBehindNeg => const_size c = true | _ => True end).
   { destruct la; auto; unfold la_pos, la_neg, la_inner in Hv; destruct (const_size c); auto; discriminate. }
   destruct la.
@@ -2024,10 +2019,127 @@ Proof.
   - eapply segP_ext; [|eapply seg_la_neg; eauto]. intros st Hst. cbv beta. now rewrite sem_la_eq.
 Qed.
 
-(* ---------- arrow (B), stage 1 ---------- *)
-Lemma seg_all_aux : forall e, seg_stmt e /\ (forall es, e = Alt es -> Forall seg_stmt es).
+Lemma C15_sem_cond c y n g st : sem cx (Conditional c y n) fuel g st =
+  match sem cx c fuel g st with
+  | s1 :: _ => sem cx y fuel (g + ngroups c) s1
+  | [] => sem cx n fuel (g + ngroups c + ngroups y) st
+  end.
+Proof. destruct st. reflexivity. Qed.
+
+Lemma seg_atomic lk c : seg_stmt false c -> seg_stmt lk (AtomicGroup c).
 Proof.
-  induction e using expr_ind'; (split; [|try (intros es0 E0; discriminate)]).
+  intros IH g hc pc ns code ns' Hv Hnd HAt (Hw & Hz & Hac & Hrk) Hns Hng; cbn [visit] in Hv.
+  destruct (negb hc && negb (hard bs g (AtomicGroup c))) eqn:Edel;
+    [inversion Hv; subst code ns'; split; [lia|]; intros v K Hsl Hok; apply seg_deleg; auto using st_ok_ix|].
+  apply bindc_inr in Hv as ([cc ns1] & Hc & Hr). inversion Hr; subst code ns'. clear Hr.
+  apply At_cons in HAt as [Ha1 HAt]. apply At_app in HAt as [HAc HA2]. apply At_cons in HA2 as [Ha2 _].
+  apply nodeleg_cons in Hnd as [_ Hnd]. apply nodeleg_app in Hnd as [Hndc _].
+  cbn [ngroups] in Hng. cbn [wfe] in Hw. cbn [zok] in Hz. cbn [acheck] in Hac. cbn [rok] in Hrk.
+  replace (pc + 1) with (S pc) in Hc by lia.
+  destruct (IH g false (S pc) ns cc ns1 Hc Hndc HAc (conj Hw (conj Hz (conj Hac Hrk))) Hns ltac:(lia)) as [Hmono IHc].
+  split; [exact Hmono|]. intros v K Hsl Hok.
+  destruct v as [ix sl aux]. cbn [sem].
+  set (v1 := {| v_ix := ix; v_sl := sl; v_aux := aux ++ [V (length K)] |}).
+  apply Gen_step. unfold RunV at 1; cbn [v_ix v_sl v_aux]. rewrite (step_begin cx P MS pc ix sl aux K Ha1).
+  change (Run (S pc) ix sl (aux ++ [V (length K)]) K) with (RunV (S pc) v1 K).
+  specialize (IHc v1 K Hsl Hok). change (sof v1) with (sof {| v_ix := ix; v_sl := sl; v_aux := aux |}) in IHc.
+  change (let '(ix0, caps0) := sof {| v_ix := ix; v_sl := sl; v_aux := aux |} in
+          firstn 1 (sem cx c fuel g (sof {| v_ix := ix; v_sl := sl; v_aux := aux |})))
+    with (firstn 1 (sem cx c fuel g (sof {| v_ix := ix; v_sl := sl; v_aux := aux |}))).
+  destruct (sem cx c fuel g (sof {| v_ix := ix; v_sl := sl; v_aux := aux |})) as [|x rest]; cbn [firstn map] in *.
+  - inversion IHc; subst. apply Gen_nil. auto.
+  - inversion IHc as [|c0 v' F Q Ps Hs HF HQ Hrest]; subst.
+    destruct HQ as (Hi & Hcp & Hax & Hfr). apply auxrel_false in Hax.
+    destruct v' as [ix' sl' aux']. cbn [v_ix v_sl v_aux] in *. subst aux'.
+    eapply Gen_cons with (F := []) (v := {| v_ix := ix'; v_sl := sl'; v_aux := aux |}).
+    + eapply steps_trans; [exact Hs|]. apply steps_step. unfold RunV, v1; cbn [v_ix v_sl v_aux app].
+      rewrite (step_end cx P MS _ ix' sl' aux (F ++ K) (length K) Ha2) by (rewrite app_length; lia).
+      rewrite skipn_app_len. f_equal. cbn [length]. rewrite app_length. cbn [length]. lia.
+    + constructor.
+    + unfold R; cbn [v_ix v_sl v_aux]. auto.
+    + apply Gen_nil. apply steps_refl.
+Qed.
+
+(* a conditional, where a leaked auxiliary-stack entry on the false path is tolerated *)
+Lemma seg_cond c y n : seg_stmt false c -> seg_stmt true y -> seg_stmt true n ->
+  seg_stmt true (Conditional c y n).
+Proof.
+  intros IHc IHy IHn g hc pc ns code ns' Hv Hnd HAt (Hw & Hz & Hac & Hrk) Hns Hng; cbn [visit] in Hv.
+  destruct (negb hc && negb (hard bs g (Conditional c y n))) eqn:Edel;
+    [inversion Hv; subst code ns'; split; [lia|]; intros v K Hsl Hok; apply seg_deleg; auto using st_ok_ix|].
+  apply bindc_inr in Hv as ([cc ns1] & Hc & Hv). apply bindc_inr in Hv as ([cy ns2] & Hy & Hv).
+  apply bindc_inr in Hv as ([cn ns3] & Hn & Hr). inversion Hr; subst code ns'. clear Hr.
+  cbn [wfe] in Hw. destruct Hw as (Hwc & Hwy & Hwn). cbn [zok] in Hz. destruct Hz as (Hzc & Hzy & Hzn).
+  cbn [rok] in Hrk. destruct Hrk as (Hrc & Hry & Hrn). cbn [ngroups] in Hng.
+  cbn [acheck] in Hac. destruct (acheck g c) eqn:Eac; [discriminate|].
+  destruct (acheck (g + ngroups c) y) eqn:Eay; [discriminate|].
+  set (pc_y := pc + 2 + length cc + 1) in *. set (pc_n := pc_y + length cy + 1) in *.
+  apply At_cons in HAt as [Ha1 HAt]. apply At_cons in HAt as [Ha2 HAt]. apply At_app in HAt as [HAc HAt].
+  apply At_cons in HAt as [Ha3 HAt]. apply At_app in HAt as [HAy HAt]. apply At_cons in HAt as [Ha4 HAn].
+  apply nodeleg_cons in Hnd as [_ Hnd]. apply nodeleg_cons in Hnd as [_ Hnd]. apply nodeleg_app in Hnd as [Hndc Hnd].
+  apply nodeleg_cons in Hnd as [_ Hnd]. apply nodeleg_app in Hnd as [Hndy Hnd]. apply nodeleg_cons in Hnd as [_ Hndn].
+  replace (S (S pc)) with (pc + 2) in * by lia.
+  replace (S (pc + 2 + length cc)) with pc_y in * by (unfold pc_y; lia).
+  replace (S (pc_y + length cy)) with pc_n in * by (unfold pc_n; lia).
+  destruct (IHc g hc (pc + 2) ns cc ns1 Hc Hndc HAc (conj Hwc (conj Hzc (conj Eac Hrc))) Hns ltac:(lia)) as [M1 G1].
+  destruct (IHy (g + ngroups c) hc pc_y ns1 cy ns2 Hy Hndy HAy (conj Hwy (conj Hzy (conj Eay Hry))) ltac:(lia) ltac:(lia)) as [M2 G2].
+  destruct (IHn (g + ngroups c + ngroups y) hc pc_n ns2 cn ns3 Hn Hndn HAn (conj Hwn (conj Hzn (conj Hac Hrn))) ltac:(lia) ltac:(lia)) as [M3 G3].
+  split; [lia|]. intros v K Hsl Hok.
+  set (q := pc + length (IBeginAtomic :: ISplit (pc + 2) pc_n :: cc ++ IEndAtomic :: cy ++ IJmp (pc_n + length cn) :: cn)).
+  assert (Eq : q = pc_n + length cn).
+  { unfold q, pc_n, pc_y. cbn [length]. rewrite !app_length. cbn [length]. rewrite app_length. cbn [length]. lia. }
+  rewrite C15_sem_cond.
+  destruct v as [ix sl aux].
+  set (v1 := {| v_ix := ix; v_sl := sl; v_aux := aux ++ [V (length K)] |}).
+  apply Gen_step. unfold RunV at 1; cbn [v_ix v_sl v_aux]. rewrite (step_begin cx P MS pc ix sl aux K Ha1).
+  change (Run (S pc) ix sl (aux ++ [V (length K)]) K) with (RunV (S pc) v1 K).
+  apply Gen_step. rewrite (step_splitV (S pc) v1 K _ _ Ha2).
+  specialize (G1 v1 (alt_of pc_n v1 :: K) ltac:(unfold v1; cbn [v_sl] in *; lia) Hok).
+  change (sof v1) with (sof {| v_ix := ix; v_sl := sl; v_aux := aux |}) in G1.
+  destruct (sem cx c fuel g (sof {| v_ix := ix; v_sl := sl; v_aux := aux |})) as [|x rest] eqn:Esem; cbn [map] in G1.
+  - (* condition fails: the false branch runs with the leaked entry *)
+    inversion G1 as [c0 Hs|]; subst.
+    eapply Gen_steps; [eapply steps_trans; [exact Hs|apply steps_step; apply fail_alt]|].
+    apply Gen_weaken with (p := pc_n); [unfold pc_n, pc_y; lia|]. rewrite Eq.
+    specialize (G3 v1 K ltac:(unfold v1; cbn [v_sl] in *; lia) Hok).
+    change (sof v1) with (sof {| v_ix := ix; v_sl := sl; v_aux := aux |}) in G3.
+    eapply Gen_impl; [|exact G3]. apply Forall2_same_map. intros a _ v' (Hi & Hcp & Hax & Hfr).
+    unfold R. split; [auto|]. split; [auto|]. split.
+    + cbn [v_aux] in *. eapply auxrel_trans; [|exact Hax]. unfold v1; cbn [v_aux auxrel]. eexists; reflexivity.
+    + eapply frame_widen; [| |exact Hfr]; lia.
+  - (* condition has a result: cut, then the true branch from the first result *)
+    inversion G1 as [|c0 v' F Q Ps Hs HF HQ Hrest]; subst.
+    destruct HQ as (Hi & Hcp & Hax & Hfr). apply auxrel_false in Hax.
+    destruct v' as [ix' sl' aux']. cbn [v_ix v_sl v_aux] in *. subst aux'.
+    set (v2 := {| v_ix := ix'; v_sl := sl'; v_aux := aux |}).
+    eapply Gen_steps.
+    { eapply steps_trans; [exact Hs|]. apply steps_step. unfold RunV, v1; cbn [v_ix v_sl v_aux].
+      replace (F ++ alt_of pc_n {| v_ix := ix; v_sl := sl; v_aux := aux ++ [V (length K)] |} :: K)
+        with ((F ++ [alt_of pc_n {| v_ix := ix; v_sl := sl; v_aux := aux ++ [V (length K)] |}]) ++ K)
+        by (rewrite <- app_assoc; reflexivity).
+      rewrite (step_end cx P MS _ ix' sl' aux _ (length K) Ha3) by (rewrite app_length; lia).
+      rewrite skipn_app_len. reflexivity. }
+    change (Run (S (pc + 2 + length cc)) ix' sl' aux K) with (RunV (S (pc + 2 + length cc)) v2 K).
+    replace (S (pc + 2 + length cc)) with pc_y by (unfold pc_y; lia).
+    assert (Hsx : sof v2 = x) by (apply sof_eq; auto).
+    assert (Hokx : st_ok cs x).
+    { eapply (sem_ok c); [exact Hwc|exact Hok|]. rewrite Esem. left; reflexivity. }
+    assert (Hl2 : ns2 <= length (v_sl v2)) by (destruct Hfr as [L _]; unfold v2, v1 in *; cbn [v_sl] in *; lia).
+    specialize (G2 v2 K Hl2 ltac:(now rewrite Hsx)).
+    rewrite Hsx in G2.
+    apply Gen_weaken with (p := pc_y); [unfold pc_y; lia|].
+    eapply Gen_map with (q := pc_y + length cy); [unfold pc_n in Eq; lia| |exact G2].
+    apply Forall2_same_map. intros a _ v' K1 (Hi2 & Hcp2 & Hax2 & Hfr2). exists v'. split.
+    + apply steps_step. rewrite Eq. apply step_jmpV. exact Ha4.
+    + unfold R. split; [auto|]. split; [auto|]. split; [exact Hax2|].
+      destruct Hfr as [L1 F1], Hfr2 as [L2 F2]. unfold v2, v1 in *. cbn [v_sl] in *. split; [congruence|].
+      intros j Hj Ho. rewrite F2, F1; auto; lia.
+Qed.
+
+(* ---------- arrow (B), stage 1 ---------- *)
+Lemma seg_all_aux : forall e lk, seg_stmt lk e /\ (forall es, e = Alt es -> Forall (seg_stmt lk) es).
+Proof.
+  induction e using expr_ind'; intros lk; (split; [|try (intros es0 E0; discriminate)]).
   - apply seg_empty.
   - apply seg_any.
   - apply seg_assertion.
@@ -2045,12 +2157,14 @@ Proof.
   - apply seg_keepout.
   - apply seg_contg.
   - apply seg_bec.
-  - intros g hc pc ns code ns' _ _ _ (_ & _ & _ & Hrk). destruct Hrk.
+  - destruct lk.
+    + apply seg_cond; [apply IHe1|apply IHe2|apply IHe3].
+    + intros g hc pc ns code ns' _ _ _ (_ & _ & _ & Hrk). destruct Hrk.
   - intros g1 hc pc ns code ns' Hv Hnd. exfalso. cbn [visit] in Hv.
     destruct (negb hc && negb (hard bs g1 (SubroutineCall g))); [|discriminate]. inversion Hv; subst code; cbn in Hnd; discriminate.
 Qed.
 
-Theorem seg_all : forall e, seg_stmt e.
-Proof. intros e. apply seg_all_aux. Qed.
+Theorem seg_all : forall lk e, seg_stmt lk e.
+Proof. intros lk e. apply seg_all_aux. Qed.
 
 End CC.
